@@ -14,7 +14,8 @@ from harness.pool import Pool
 
 OPS = ["-", "~", "*", "+", "<<", ">>", "&", "|"]
 DIRECTIVE_CTXS = ["dl", "sym", "assign", "macro", "if"]
-ENV = {"x": 5}
+ENV = {"x": 5, "_u": 5, "Xy_1": 5}
+IDNAMES = ["x", "_u", "Xy_1"]
 
 
 def render_num(v: int, style: str) -> str:
@@ -29,8 +30,9 @@ def render_num(v: int, style: str) -> str:
 
 def render(tokens: list, spacing: str, numstyle: str, rnd: random.Random) -> str:
     parts = []
+    idname = rnd.choice(IDNAMES)       # the identifier is written x, _u or Xy_1 (same value)
     for t in tokens:
-        parts.append(render_num(t, numstyle) if isinstance(t, int) else t)
+        parts.append(render_num(t, numstyle) if isinstance(t, int) else (idname if t == "x" else t))
     if spacing == "none":
         return "".join(parts)
     if spacing == "single":
